@@ -1,16 +1,35 @@
-(* MddExact.v — properties C07 / C08(i) / C06 / C02 for the CLEAN flavours of Mdd.v:
-   in a compiled diagram, every node whose best chain up to the root only traverses
-   non-merged nodes has (state, value) equal to what replaying its best path through the
-   user's model gives (with the saturating isize accumulation the code performs).
+(* MddExact.v — properties C07 / C08(i) / C06 / C02 for the CLEAN flavours (CleanLEL, CleanFC) of Mdd.v:
+   in a compiled diagram, every node whose best chain up to the root only traverses non-merged
+   nodes has (state, value) equal to what replaying its best path through the user's model gives
+   (with the saturating isize accumulation the code performs).
+
+   Definitions
+     replay_sat pb ds s v   DP.replay with sat_add accumulation  (replay_sat_eq_replay: equal to DP.replay
+                            when no partial sum overflows; replay_sat_feasible: same states in any case)
+     chain m id             walk_up (S (length nodes)) m (n_best (node id)), deepest decision first
+     clean_chain m id       inductive: id and all nodes met walking the best edges are not F_RELAXED,
+                            and the walk ends in node 0
+     Sinv m                 static invariant of a diagram (node_ok / root_ok / ranges / edge_var_ok)
+     Dinv m, Xinv m         dynamic invariants carried through the compilation loop
+
+   Main results (all for ci_flavour inp = CleanLEL \/ CleanFC, st_eqb deciding equality)
+     finalize_preserves_paths, finalize_spec
+     T1  exact_flag_implies_clean_chain            (+ _loop version for the state after layer_loop)
+     T2  has_exact_best_path_implies_clean_chain   (+ _loop)
+     T3  clean_chain_replays (+ _loop), clean_chain_variables, clean_chain_feasible
+     C1  restricted_solution_feasible, restricted_best_solution_replays
+     C2  cutset_nodes_exact      (both cut-set kinds: last exact layer and frontier)
+     C3  best_exact_solution_genuine (no hypothesis on the type / dd_is_exact needed),
+         relaxed_exact_solution_genuine (the statement as asked)
+     compile_Sinv_any: the static invariant holds whatever the outcome (so Sinv_* lemmas apply to
+     diagrams returned with CutoffOccurred too).
+   No statement had to be weakened (no _partial).
 
    Plan of the file
-     1. list / upd_nth / record-projection lemmas
-     2. replay_sat, chain, clean_chain
-     3. core equality of nodes, path-equivalence [peq] of diagrams
-     4. the invariant ([node_ok], [Sinv] static, [Dinv] dynamic)
-     5. preservation: append_edge, branch_on, expand_node, filters, squash, layer move, layer_loop
-     6. finalize preserves paths
-     7. T1 T2 T3 and the corollaries C1 C2 C3. *)
+     1. list / upd_nth / record-projection lemmas     2. replay_sat, chain, clean_chain
+     3. core equality of nodes, path-equivalence [peq] / [ceq] of diagrams, [stable]
+     4. the invariants     5. preservation: append_edge, branch_on, expand_node, filters, squash
+        (restrict / relax), layer move, layer_loop     6. finalize     7-8. the theorems. *)
 Require Import DDO.Base DDO.Fringe DDO.DP DDO.Cache DDO.Dom DDO.Mdd.
 Local Open Scope nat_scope.
 
@@ -67,23 +86,23 @@ Proof.
 Qed.
 
 (* ------------------------------------------------------------------ tactic: projections of the record helpers *)
-Ltac msimpl :=
+Local Ltac msimpl :=
   cbn [m_nodes m_edges m_layers m_layer_end m_next m_curr_depth m_path m_lel m_cutset m_best
        m_best_exact m_is_exact m_has_ebp m_cache m_dom m_log m_polls m_crash
        with_nodes upd_node add_log set_crash with_next with_cache with_dom with_lel_exact
        push_layer with_depth with_polls with_best with_cutset append_edge].
-Ltac msimpl_in H :=
+Local Ltac msimpl_in H :=
   cbn [m_nodes m_edges m_layers m_layer_end m_next m_curr_depth m_path m_lel m_cutset m_best
        m_best_exact m_is_exact m_has_ebp m_cache m_dom m_log m_polls m_crash
        with_nodes upd_node add_log set_crash with_next with_cache with_dom with_lel_exact
        push_layer with_depth with_polls with_best with_cutset append_edge] in H.
-Ltac nsimpl :=
+Local Ltac nsimpl :=
   cbn [n_state n_vtop n_vbot n_best n_inb n_rub n_theta n_flags n_depth
        set_flags set_theta set_vbot set_rub set_depth
        f_exact f_relaxed f_marked f_cutset f_deleted f_cache f_above
        fl_set_exact fl_set_relaxed fl_set_marked fl_set_cutset fl_set_deleted fl_set_cache fl_set_above
        fl_new_exact fl_new_relaxed e_from e_to e_dec e_cost].
-Ltac nsimpl_in H :=
+Local Ltac nsimpl_in H :=
   cbn [n_state n_vtop n_vbot n_best n_inb n_rub n_theta n_flags n_depth
        set_flags set_theta set_vbot set_rub set_depth
        f_exact f_relaxed f_marked f_cutset f_deleted f_cache f_above
@@ -2207,6 +2226,37 @@ Section Exact.
   Proof. intros H. apply Sinv_clean_chain_vars. eapply compile_Sinv; eauto. Qed.
 
 
+  (* feasibility in the sense of DP.replay: the chain replays to the node's state; the value is the
+     node's value whenever no isize overflow was clamped along the way *)
+  Corollary Sinv_clean_chain_feasible (m : mdd) id :
+    Sinv m -> clean_chain m id -> id < length (m_nodes m) ->
+    exists w, replay pb (rev (chain m id)) (sp_state root) (sp_value root) = Some (n_state (gn m id), w) /\
+              (no_overflow pb (rev (chain m id)) (sp_state root) (sp_value root) -> w = n_vtop (gn m id)).
+  Proof.
+    intros HS Hcc Hid. destruct (Sinv_clean_chain_replays m id HS Hcc Hid) as (R1 & _).
+    destruct (replay_sat_feasible pb _ _ _ _ _ (sp_value root) R1) as [w Hw].
+    exists w. split; [exact Hw|]. intros Hno.
+    rewrite (replay_sat_eq_replay pb _ _ _ Hno) in R1. rewrite Hw in R1. inversion R1. reflexivity.
+  Qed.
+
+  (* whatever the outcome (Compiled, CutoffOccurred, OutOfFuel) the returned diagram satisfies the
+     static invariant, so the Sinv_* lemmas above apply to it *)
+  Lemma compile_Sinv_any tb tb2 c ds polls : Sinv (fst (compile st_eqb inp tb tb2 c ds polls)).
+  Proof.
+    unfold compile. cbv zeta.
+    destruct (layer_loop_Sinv (S (S (nb_vars pb))) c ds polls) as [HS HX]. fold pb.
+    destruct (layer_loop st_eqb inp (S (S (nb_vars pb))) (initialize inp c ds polls)) as [ml e].
+    cbn [fst] in HS, HX. destruct e; cbn [fst]; auto.
+    apply (finalize_spec tb tb2 ml HS HX).
+  Qed.
+
+  Theorem clean_chain_feasible tb tb2 c ds polls m id :
+    compile st_eqb inp tb tb2 c ds polls = (m, Compiled) ->
+    clean_chain m id -> id < length (m_nodes m) ->
+    exists w, replay pb (rev (chain m id)) (sp_state root) (sp_value root) = Some (n_state (gn m id), w) /\
+              (no_overflow pb (rev (chain m id)) (sp_state root) (sp_value root) -> w = n_vtop (gn m id)).
+  Proof. intros H. apply Sinv_clean_chain_feasible. eapply compile_Sinv; eauto. Qed.
+
   (* ---------------------------------------------------------------- C1 *)
   Theorem restricted_solution_feasible tb tb2 c ds polls m b :
     ci_type inp = Restricted \/ ci_type inp = Exact ->
@@ -2317,6 +2367,8 @@ Print Assumptions has_exact_best_path_implies_clean_chain_loop.
 Print Assumptions clean_chain_replays.
 Print Assumptions clean_chain_replays_loop.
 Print Assumptions clean_chain_variables.
+Print Assumptions clean_chain_feasible.
+Print Assumptions compile_Sinv_any.
 Print Assumptions restricted_solution_feasible.
 Print Assumptions restricted_best_solution_replays.
 Print Assumptions cutset_nodes_exact.
